@@ -16,6 +16,7 @@ type exprContext struct {
 	root             store.Cursor
 	result           Result
 	contextPosition  int
+	contextSize      int
 	builtinFunctions map[XmlName]Function
 	ContextSettings
 }
@@ -23,6 +24,7 @@ type exprContext struct {
 type Context interface {
 	Result() Result
 	ContextPosition() int
+	ContextSize() int
 }
 
 func (c *exprContext) Result() Result {
@@ -33,11 +35,18 @@ func (c *exprContext) ContextPosition() int {
 	return c.contextPosition
 }
 
+// ContextSize returns the number of nodes in the node-set that is currently
+// being filtered (the value of last()); 1 outside of a predicate.
+func (c *exprContext) ContextSize() int {
+	return c.contextSize
+}
+
 func (e *exprContext) copy() exprContext {
 	return exprContext{
 		root:             e.root,
 		result:           e.result,
 		contextPosition:  e.contextPosition,
+		contextSize:      e.contextSize,
 		builtinFunctions: builtinFunctions,
 		ContextSettings:  e.ContextSettings,
 	}
